@@ -19,6 +19,7 @@
                    used for the condition of ?: - `NL_EL (ops, cond ? 1 : 2)` then selects the arm by a constant index
                    (with a symbolic condition the arm is a symbolic pointer and symbolic execution explores every case
                    of eval for it and for its operands: 25 M clauses for one ?: over leaves)
+   -DH_UNEVAL      the inner operator is in the arm of ?: that the constant condition does not select
    -DH_DIV0=1      (shape 1, OP = / or %) the divisor is zero: a diagnostic must be reported
    -DH_EXCLUDE_F6  assume away exactly the operand-type combinations of finding F6 (see props/C09.py) */
 #include "h.h"
@@ -183,7 +184,7 @@ static void h_case (ppif_op op, ppif_op op1, const unsigned c[6]) {
   H_ASSUME (!exp.undef);
   if (exp.diag) {
     H_ASSERT (n_errors != 0, "division/remainder by zero in an evaluated position is diagnosed");
-#if defined(H_DIV0) || (H_SHAPE == 2 && (OP == 13 || OP == 14 || (H_OP1_LO <= 14 && H_OP1_HI > 13)))
+#if defined(H_DIV0) || (H_SHAPE == 2 && !defined(H_UNEVAL) && (OP == 13 || OP == 14 || (H_OP1_LO <= 14 && H_OP1_HI > 13)))
     H_WITNESS ("zero divisor evaluated");
 #endif
   } else {
